@@ -89,6 +89,21 @@ fn atanh(z: Complex<f64>) -> Complex<f64> {
     }
 }
 
+/// acos(z) by Kahan's formulas on sqrt(1 - z) and sqrt(1 + z): num_complex's -i ln(z + i sqrt(1 - z^2)) cancels
+/// next to z = 1 (acos(0.999999993) is off by 1.7e-9)
+fn acos(z: Complex<f64>) -> Complex<f64> {
+    let a = (1.0 - z).sqrt();
+    let b = (1.0 + z).sqrt();
+    Complex::new(2.0 * a.re.atan2(b.re), (b.conj() * a).im.asinh())
+}
+
+/// acosh(z) likewise on sqrt(z - 1) and sqrt(z + 1) (acosh(1.00000000000001) was off by 1.2e-9)
+fn acosh(z: Complex<f64>) -> Complex<f64> {
+    let a = (z - 1.0).sqrt();
+    let b = (z + 1.0).sqrt();
+    Complex::new((a.conj() * b).re.asinh(), 2.0 * a.im.atan2(b.re))
+}
+
 pub fn eval(expr: Node) -> Result<Complex<f64>, Box<dyn error::Error>> {
     #[cfg(feature = "verif_hooks")]
     crate::verif_hooks::tick(crate::verif_hooks::Point::EvalEntry);
@@ -119,14 +134,14 @@ pub fn eval(expr: Node) -> Result<Complex<f64>, Box<dyn error::Error>> {
             let w = asinh(Complex::new(-z.im, z.re));
             Ok(Complex::new(w.im, -w.re))
         }
-        Acos(sub_expr) => Ok(eval(*sub_expr)?.acos()),
+        Acos(sub_expr) => Ok(acos(eval(*sub_expr)?)),
         Atan(sub_expr) => {
             let z = eval(*sub_expr)?;
             let w = atanh(Complex::new(-z.im, z.re));
             Ok(Complex::new(w.im, -w.re))
         }
         Arsinh(sub_expr) => Ok(asinh(eval(*sub_expr)?)),
-        Arcosh(sub_expr) => Ok(eval(*sub_expr)?.acosh()),
+        Arcosh(sub_expr) => Ok(acosh(eval(*sub_expr)?)),
         Artanh(sub_expr) => Ok(atanh(eval(*sub_expr)?)),
         Sqrt(sub_expr) => Ok(eval(*sub_expr)?.sqrt()),
         Ln(sub_expr) => Ok(eval(*sub_expr)?.ln()),
